@@ -447,6 +447,7 @@ func (sv *simService) rpc(label string) error {
 	if sv.fcount[t] >= sv.fat[t] && (sv.fired[t] || aimed) {
 		first := !sv.fired[t]
 		sv.fired[t] = true
+		s.SetNote(t, noteFired, 1)
 		switch sv.fkind[t] {
 		case faultCancel:
 			if first && sv.cancels[t] != nil {
@@ -911,8 +912,10 @@ func RunC18(t *kernel.Tape, o Opts) *Result {
 	for i := range programs {
 		i := i
 		fns[i] = func(*kernel.Task) {
-			for _, op := range programs[i] {
+			for j, op := range programs[i] {
 				s.Yield(kernel.KindOp, "op-start", false)
+				s.SetNote(i, noteOp, int64(j+1))
+				s.SetNote(i, noteFired, 0)
 				runOp(i, op)
 				s.Yield(kernel.KindOp, "op-end", false)
 			}
@@ -992,6 +995,19 @@ func RunC18(t *kernel.Tape, o Opts) *Result {
 	res.Config = "npm-api/" + mode
 	if !okRun {
 		res.Status = "stalled"
+		if s.Deadlock {
+			res.Config = "npm-api/deadlock"
+			// the tasks did not join: only kernel notes and what was fixed
+			// before the fork may be read here
+			if hang(res, s, ntasks, func(task int) bool { return s.Note(task, noteFired) != 0 }, func(task int) string {
+				if j := int(s.Note(task, noteOp)); j > 0 && j <= len(programs[task]) {
+					return fmt.Sprintf("task %d: %s", task, programs[task][j-1])
+				}
+				return fmt.Sprintf("task %d", task)
+			}, "hang:npm-api") {
+				res.Status = "hang"
+			}
+		}
 		return res
 	}
 	if s.Foreign {
